@@ -2,6 +2,8 @@ import NutilsVerif.Proofs.C16Sum
 import NutilsVerif.Proofs.C16Slots
 import NutilsVerif.Proofs.C16Static
 import NutilsVerif.Proofs.C16Fork
+import NutilsVerif.Proofs.C16Live
+import NutilsVerif.Proofs.C16Locate
 import Mathlib.Algebra.Group.Defs
 /-!
 # C16 — parallel evaluation equals serial evaluation: property theorems
@@ -194,6 +196,27 @@ theorem forkWidth_facts (k maxp : Nat) :
     (1 < k → 1 < maxp → forkWidth (some k) maxp = min k maxp) := by
   simp only [forkWidth]
   refine ⟨?_, ?_, ?_, ?_⟩ <;> grind
+
+/-- The hypotheses "complete run" of the theorems above are never vacuous: for every number of workers `N ≥ 1`, every `n` and every
+disciplined program there is a schedule after which all processes have left their loops normally. -/
+theorem complete_schedule_exists {α : Type} [Add α] (N n : Nat) (hN : 0 < N) (code : Nat → List (Instr α)) (hc : Disciplined code)
+    (sh : Nat → α) (sl : Nat → Option α) : ∃ σ, AllDone N (run N n code σ (init sh sl)) :=
+  complete_schedule_exists_aux hN hc sh sl
+
+/-- Clause "locating gives the same result" for the failure path of `Topology._locate` (`skip_missing=False`): whichever workers
+find missing points and start fast-forwarding, under ALL schedules every point up to and including the first missing one has been
+processed when the loop is over — so `coords[ielems==-1][0]` names the same point as in the serial run (and with no missing point
+every point is located). -/
+theorem locate_first_missing (n : Nat) (miss : Nat → Bool) (σ : List LEv)
+    (hidx : (lrun n miss σ linit).idx = n) (hcur : ∀ w, (lrun n miss σ linit).cur w = none)
+    (i : Nat) (hi : i < n) (hbefore : ∀ j, j < i → miss j = false) :
+    (lrun n miss σ linit).mark i = some (!miss i) := by
+  have h : LocInv miss (lrun n miss σ linit) :=
+    LocInv.run σ ⟨by simp [linit], by simp [linit], by simp [linit]⟩
+  rcases h.done_or_running i (by omega) hbefore with hm | ⟨w, hw⟩
+  · exact hm
+  · rw [hcur w] at hw; cases hw
+
 
 /-! ### the hypotheses are satisfiable -/
 
